@@ -128,6 +128,11 @@ impl FromStr for Asn {
 
     #[inline]
     fn from_str(asn_string: &str) -> Result<Self, Self::Err> {
+        // The integer parsers accept a leading `+`, which is not part of the AS number format.
+        if asn_string.contains('+') {
+            return Err(AddressParseError::Asn);
+        }
+
         // AS numbers less than 2^32 can be provided as decimal
         if let Ok(bgp_asn) = u64::from_str(asn_string) {
             return if bgp_asn <= u32::MAX.into() {
